@@ -1,7 +1,7 @@
 From Coq Require Import Lia.
 (* C04 — Structure layout follows C rules; declared size equals bytes read and written. *)
 From VF Require Import Model.Writer Proofs.LayoutCorrect Proofs.CodecCorrect Proofs.SizeProps Proofs.RoundTrip Proofs.AlignedSize Model.Compiler Gen.GeneratedOk.
-From VF Require Proofs.CompilerProps Proofs.CompiledRoundTrip Proofs.CompilerGaps Proofs.CompiledAligned.
+From VF Require Proofs.CompilerProps Proofs.CompiledRoundTrip Proofs.CompilerGaps Proofs.CompilerStatic Proofs.CompiledAligned.
 Open Scope list_scope. Open Scope Z_scope.
 
 (* For every field list without bit fields and pre-set offsets whose members are statically sized, the
@@ -71,9 +71,9 @@ Theorem compiled_parse_consumes_declared_size : forall c fuel nm fs p n,
   forall s pos v q, 0 <= pos -> read_compiled c fuel false fs s pos = Ok (v, q) -> q = pos + n.
 Proof. exact CompiledRoundTrip.compiled_consumes_size. Qed.
 
-(* ... and so does the compiled reader of an ALIGNED structure of scalars, started at a multiple of its alignment (tail padding included) *)
+(* ... and so does the compiled reader of an ALIGNED structure with a static layout (scalars, nested structures and unions, arrays of them), started at a multiple of its alignment (tail padding included) *)
 Theorem compiled_aligned_parse_consumes_declared_size : forall c fuel nm fs p n,
-  Forall (CompilerGaps.acls c) fs -> NoDup (map f_name fs) -> CompiledAligned.size_fits c fs -> compile_plan c true fs = Ok p ->
+  Forall (CompilerStatic.stcls c fuel true) fs -> NoDup (map f_name fs) -> CompiledAligned.size_fits c fs -> compile_plan c true fs = Ok p ->
   aflat c (TStruct nm fs true) = true -> ty_size c (TStruct nm fs true) = Some n ->
   forall s pos v q, 0 <= pos -> (req c (TStruct nm fs true) | pos) -> read_compiled c fuel true fs s pos = Ok (v, q) -> q = pos + n.
 Proof. exact CompiledAligned.compiled_aligned_consumes_size. Qed.
@@ -100,15 +100,19 @@ Example ex_layout : layout_struct ex_cfg true ex_fs = Ok (mkLay [Some 0; Some 4;
                  /\ layout_struct ex_cfg false ex_fs = Ok (mkLay [Some 0; Some 1; Some 5; Some 8] (Some 14) 4).
 Proof. vm_compute. split; reflexivity. Qed.
 
-(* non-vacuity of the compiled aligned theorem: struct { uint8 a; uint32 b; int16 c; char d[3]; uint64 e; uint24 f; } aligned *)
+(* non-vacuity of the compiled aligned theorems: struct N { uint8 x; uint32 y; }; struct { uint8 a; N n; uint16 b; N arr[2]; char d[3]; uint8 m[2][2]; uint64 q; } aligned *)
 Definition exa_cfg := mkCfg "<" (PInt 8 false true) 8 [] [].
-Definition exa_fs := [Fld "a" false (TPrim (PInt 1 false true) 1) None None; Fld "b" false (TPrim (PInt 4 false true) 4) None None;
-                      Fld "c" false (TPrim (PInt 2 true true) 2) None None; Fld "d" false (TArr (TPrim PChar 1) (LFixed 3)) None None;
-                      Fld "e" false (TPrim (PInt 8 false true) 8) None None; Fld "f" false (TPrim (PInt 3 false false) 4) None None].
-Example exa_class : Forall (CompilerGaps.acls exa_cfg) exa_fs /\ NoDup (map f_name exa_fs) /\ CompiledAligned.size_fits exa_cfg exa_fs /\ (exists p, compile_plan exa_cfg true exa_fs = Ok p) /\ aflat exa_cfg (TStruct "m" exa_fs true) = true /\ ty_size exa_cfg (TStruct "m" exa_fs true) = Some 32.
+Definition exa_N := TStruct "N" [Fld "x" false (TPrim (PInt 1 false true) 1) None None; Fld "y" false (TPrim (PInt 4 false true) 4) None None] true.
+Definition exa_fs := [Fld "a" false (TPrim (PInt 1 false true) 1) None None; Fld "n" false exa_N None None; Fld "b" false (TPrim (PInt 2 false true) 2) None None;
+                      Fld "arr" false (TArr exa_N (LFixed 2)) None None; Fld "d" false (TArr (TPrim PChar 1) (LFixed 3)) None None;
+                      Fld "m" false (TArr (TArr (TPrim (PInt 1 false true) 1) (LFixed 2)) (LFixed 2)) None None; Fld "q" false (TPrim (PInt 8 false true) 8) None None].
+Example exa_class : Forall (CompilerStatic.stcls exa_cfg 50 true) exa_fs /\ NoDup (map f_name exa_fs) /\ CompiledAligned.size_fits exa_cfg exa_fs /\ (exists p, compile_plan exa_cfg true exa_fs = Ok p) /\ aflat exa_cfg (TStruct "m" exa_fs true) = true /\ ty_size exa_cfg (TStruct "m" exa_fs true) = Some 48.
 Proof.
   split; [|split; [|split; [|split]]].
-  - repeat (apply Forall_cons; [split; [reflexivity|]; split; [split; [reflexivity|]; split; [vm_compute; discriminate|vm_compute; split; [reflexivity|discriminate]]|vm_compute; discriminate]|]).
+  - repeat (apply Forall_cons; [split; [reflexivity|]; split; [split; [reflexivity|];
+        first [ left; split; [vm_compute; discriminate|vm_compute; split; [reflexivity|discriminate]]
+              | right; split; [reflexivity|]; split; [reflexivity|]; split; [apply CompilerProps.sub_ok_of_shift; [vm_compute; reflexivity|intros n H; vm_compute in H; injection H as <-; lia]|eexists; vm_compute; reflexivity] ]
+        | intros _; vm_compute; discriminate]|]).
     apply Forall_nil.
   - cbn. repeat constructor; cbn; intuition discriminate.
   - intros lay n H. vm_compute in H. injection H as <-. cbn [l_size]. intros H. injection H as <-. lia.
